@@ -33,6 +33,15 @@ Theorem C09_run_location_independent : forall q e sg cfg files sfiles,
 Proof. exact run_location_independent. Qed.
 Print Assumptions C09_run_location_independent.
 
+(* the cross-file rule (duplicate code): which files take part, which texts have a partner and which violations survive the
+   linter's ignore list are all decided on the paths inside the project - for the sequential and the --parallel run alike
+   (the model does not distinguish them; validated by correspondence) *)
+Theorem C09_dry_location_independent : forall q e sg cfg files sfiles,
+  flags_off q -> Forall2 (denotes e) files sfiles ->
+  dry_result q e sg cfg files = dry_spec (e_root_pats e) sg cfg sfiles.
+Proof. exact dry_location_independent. Qed.
+Print Assumptions C09_dry_location_independent.
+
 (* the same project at two locations / from two working directories / in two spellings: identical results *)
 Theorem C09_two_locations_agree : forall q sg cfg e1 e2 files1 files2 sfiles,
   flags_off q -> e_root_pats e1 = e_root_pats e2 ->
